@@ -112,7 +112,8 @@ export async function run(ctx) {
       const emitted = emittedClasses(parser);
       const expectThrow = UNPRINTABLE_CLASSES.some((c) => emitted.has(c));
       if (expectThrow !== [...kinds].some((k) => UNPRINTABLE.has(k))) ctx.count("emitted_kinds_differ_from_reference");
-      const usesFormats = kinds.has("fmt");
+      // (formats are read off the emitted runtypes as well: a type operator may have taken another branch than the reference)
+      const usesFormats = kinds.has("fmt") || emitted.has("StringWithFormatRuntype") || emitted.has("NumberWithFormatRuntype");
       const recursive = kinds.has("recursive");
       const modes = [{ mode: "flat" }, ...CONFIGS.map((cfg, i) => ({ mode: "contextual", cfg, ci: i }))];
       // JSON documents from the type (members, mutants) — shared by all modes
